@@ -626,6 +626,21 @@ def specials():
     out.append(('real-minf', R, R.clone('-inf'), [float('-inf')]))
     out.append(('real-float', R, R.clone(1.5), [1.5, (15, 10, -1)]))
     out.append(('real-zero', R, R.clone(0.0), [0.0, 0]))
+    # lists whose positions were assigned out of order (the stored mapping is not in positional order)
+    for cls, nm in ((univ.SequenceOf, 'seqof'), (univ.SetOf, 'setof')):
+        LT = cls(componentType=univ.Integer())
+        lo = LT.clone()
+        for pos, val in ((2, 30), (0, 10), (3, 40), (1, 20)):
+            lo.setComponentByPosition(pos, val)
+        out.append(('%s-out-of-order' % nm, LT, lo, [[10, 20, 30, 40], (10, 20, 30, 40)]))
+    RT = univ.Sequence(componentType=namedtype.NamedTypes(namedtype.NamedType('id', univ.Integer()),
+                                                          namedtype.OptionalNamedType('opt', univ.OctetString()),
+                                                          namedtype.NamedType('items', univ.SequenceOf(componentType=univ.OctetString()))))
+    ro = RT.clone()
+    ro['id'] = 7
+    for pos, val in ((1, b'bb'), (2, b'c'), (0, b'a')):
+        ro['items'].setComponentByPosition(pos, val)
+    out.append(('record-list-out-of-order', RT, ro, [{'id': 7, 'items': [b'a', b'bb', b'c']}]))
     flags = univ.BitString(namedValues=namedval.NamedValues(('urgent', 0), ('active', 1), ('spare', 2)))
     out.append(('bits-named', flags, flags.clone('urgent, spare'), ['101', (1, 0, 1), [1, 0, 1]]))
     U = char.UTF8String()
